@@ -292,6 +292,8 @@ fn newer(rng: &mut Rng, ctx: &mut Ctx) {
     for k in 0..ctx.n {
         let (mut r, mut tags) = gen_replay(rng, k, &go);
         r.double_end = false; // the duplicated-Game-End heuristic compares against the known size; not a known field
+        // extra trailing bytes are *extra* only behind the last known field: a Game End shorter than 6 bytes is completed to the newest layout first
+        if let Some(e) = r.end.as_mut() { let fill = [255u8, 255, 0, 1, 255, 2]; while e.len() < 6 { e.push(fill[e.len()]); } }
         let pad = Pad { gstart: (rng.next() % 40) as usize, pre: (rng.next() % 9) as usize, post: (rng.next() % 9) as usize, gend: (rng.next() % 5) as usize, fstart: (rng.next() % 6) as usize, item: (rng.next() % 7) as usize, fend: (rng.next() % 5) as usize };
         let base = encode(&r); let x = encode_padded(&r, &pad);
         let (bl, bg) = read_line(&base, false, false); let (l, g) = read_line(&x, false, false);
@@ -467,7 +469,7 @@ fn inc(rng: &mut Rng, ctx: &mut Ctx) {
         let (fl, fg) = read_line(&b, false, false);
         let mut fails: Vec<(String, String)> = vec![];
         let res = std::panic::catch_unwind(std::panic::AssertUnwindSafe(|| -> Result<String, String> {
-            let g = fg.as_ref().ok_or("one-shot failed".to_string())?;
+            let og = fg.as_ref(); // the incremental API is driven even when the one-shot reader fails: a well-formed file must be accepted by both
             let mut src = Chunked::new(b.clone(), plan.clone(), None);
             let raw_len = slippi::de::parse_header(&mut src, None).map_err(|e| format!("err {}", e))? as usize;
             let mut st = slippi::de::parse_start(&mut src, None).map_err(|e| format!("err {}", e))?;
@@ -482,7 +484,7 @@ fn inc(rng: &mut Rng, ctx: &mut Ctx) {
                 if len < last_len { fails.push(("C12".into(), "frame count decreased".into())); } last_len = len;
                 // frames known to be complete: all but the newest, and the newest too once its Frame End has been seen
                 let complete = if code == 0x3C { len } else { len.saturating_sub(1) };
-                if let Err(e) = completed_prefix_ok(&st, g, complete) { if fails.len() < 3 { fails.push(("C12".into(), format!("after {} events: {}", trace.len() - 1, e))); fails.push(("C13".into(), format!("in-progress representation: {}", e))); } }
+                if let Some(g) = og { if let Err(e) = completed_prefix_ok(&st, g, complete) { if fails.len() < 3 { fails.push(("C12".into(), format!("after {} events: {}", trace.len() - 1, e))); fails.push(("C13".into(), format!("in-progress representation: {}", e))); } } }
                 if code == 0x39 { break; }
             }
             // what `read` does after the loop
@@ -494,12 +496,14 @@ fn inc(rng: &mut Rng, ctx: &mut Ctx) {
                 } else { let mut junk = vec![0; raw_len - st.bytes_read()]; src.read_exact(&mut junk).map_err(|e| format!("err {}", e))?; } }
             let mut one = [0u8; 1]; src.read_exact(&mut one).map_err(|e| format!("err {}", e))?;
             if one[0] == 0x55 { slippi::de::parse_metadata(&mut src, &mut st, None).map_err(|e| format!("err {}", e))?; }
+            if let Some(g) = og {
             if start_json(st.start()) != start_json(&g.start) || end_json(st.end()) != end_json(&g.end) || st.metadata() != &g.metadata || st.gecko_codes() != &g.gecko_codes { fails.push(("C12".into(), "incremental start/end/metadata/gecko differ from the one-shot game".into())); }
-            if st.frames().id.values().as_slice() != g.frames.id.values().as_slice() { fails.push(("C12".into(), "incremental frame ids differ from the one-shot game".into())); }
-            let n = g.frames.id.len();
-            // all frames but a possibly still-open last one (versions < 3.0 close lazily)
-            let upto = if r.v >= (3, 0, 0) { n } else { n.saturating_sub(1) };
-            if let Err(e) = completed_prefix_ok(&st, g, upto) { fails.push(("C12".into(), format!("final incremental state: {}", e))); }
+                if st.frames().id.values().as_slice() != g.frames.id.values().as_slice() { fails.push(("C12".into(), "incremental frame ids differ from the one-shot game".into())); }
+                let n = g.frames.id.len();
+                // all frames but a possibly still-open last one (versions < 3.0 close lazily)
+                let upto = if r.v >= (3, 0, 0) { n } else { n.saturating_sub(1) };
+                if let Err(e) = completed_prefix_ok(&st, g, upto) { fails.push(("C12".into(), format!("final incremental state: {}", e))); }
+            } else { fails.push(("C12".into(), format!("the one-shot reader fails ({}) on bytes the incremental API parses to the end", &fl[..fl.len().min(120)]))); }
             Ok(format!("ok {}", trace.join(",")))
         }));
         let line = match res { Err(_) => { fails.push(("C06".into(), "incremental API panicked on a well-formed replay".into())); "panic".into() } Ok(Err(e)) => { if fl.starts_with("ok") { fails.push(("C12".into(), format!("incremental parse failed where one-shot succeeds: {}", e))); } e } Ok(Ok(s)) => s };
